@@ -1,4 +1,4 @@
 SPECIFICATION Spec
-CONSTANTS G = 4  MaxV = 3  XLeft = 0  YDown = 8  UseMin = FALSE  MaxHits = 99  Margin = "max"  BothOrders = TRUE
+CONSTANTS G = 4  MaxV = 3  XLeft = 0  YDown = 8  UseMin = FALSE  MaxHits = 99  Algo = "probe_max"  BothOrders = TRUE
 CHECK_DEADLOCK FALSE
 INVARIANT DesignHolds
